@@ -38,6 +38,7 @@ def main(tier, replay=None):
         dict(name="restart-message-in-first-split-directory", opts=[M, "msgs=l1", "verdicts=KZ", "reorder=1", "bucket=0"], bounds="0,0,0,%d" % (3 if q else 4), total=4),
         dict(name="deferred-restart-with-one-failing-call", opts=["monitors=C15", "msgs=l1r1", "verdicts=ZKT", "reorder=1", "concl=2"] + (["maxticks=4", "signals=2"] if q else ["maxticks=6", "signals=2"]), bounds="0,1,0,2", total=3),
         dict(name="clock-set-back-while-stopped", opts=["monitors=C15", "msgs=l1r1", "verdicts=ZK", "reorder=1", "clockback=1", "maxticks=%d" % (4 if q else 6)], bounds="0,0,0,%d" % (3 if q else 4), total=4),
+        dict(name="alrm-while-the-daemon-is-busy", opts=["monitors=C15", "msgs=l1r1", "verdicts=KZ", "reorder=1", "busysig=1", "signals=0"], bounds="0,0,0,%d" % (3 if q else 4), total=4),
         dict(name="two-messages-order", opts=[M, "msgs=l1+r1b", "verdicts=KZ", "reorder=2", "signals=0"], bounds="0,0,0,%d" % (3 if q else 5), total=5),
     ]
     for f in fams:
